@@ -83,7 +83,7 @@ Definition judge (k : c05case) : N :=
       if negb (frag_eqb (k5_frag k) (ser (k5_def k) sv)) then 5%N   (* harness serialiser <> Spec.ser *)
       else
       let gc : N := if negb (g_nonempty sv) then 1%N else if negb (g_nosep (k5_def k) sv) then 2%N
-                    else if negb (g_shape sv) then 3%N else if negb (g_ap (k5_def k) sv) then 4%N
+                    else if negb (g_shape sv) then 3%N
                     else if negb (g_declared (k5_def k) sv) then 6%N
                     else if negb (g_query_obj_found (k5_def k)) then 7%N else 0%N in
       match expected pi64 pi32 pf (k5_def k) sv with
